@@ -102,12 +102,14 @@ def family_requests(report, thorough):
             continue
         f = getattr(gl.PermutationGroups, fn)
         params = list(inspect.signature(f).parameters.values())
+        src = inspect.getsource(f)
+        big = "permutations(" in src or "combinations(" in src   # factorially many generators
         doms = []
         for k, p in enumerate(params):
             if p.annotation is bool:
                 doms.append([False, True])
             elif k == 0:
-                doms.append(list(range(-1, cap + (4 if len(params) == 1 else 1))))
+                doms.append(list(range(-1, 7 if big else cap + (4 if len(params) == 1 else 1))))
             else:
                 doms.append(list(range(-1, cap + 2)))
         grid = list(itertools.product(*doms))
